@@ -244,9 +244,27 @@ def watchdog(seconds=30):
     def on_alarm(signum, frame):
         raise CaseTimeout()
     old = signal.signal(signal.SIGALRM, on_alarm)
-    signal.setitimer(signal.ITIMER_REAL, seconds)
+    # repeating: code under test may swallow the exception once (a `return` inside `finally:`); it is raised again every 0.5 s
+    signal.setitimer(signal.ITIMER_REAL, seconds, 0.5)
     try:
         yield
     finally:
         signal.setitimer(signal.ITIMER_REAL, 0)
         signal.signal(signal.SIGALRM, old)
+
+
+@_contextlib.contextmanager
+def local_tz(tz):
+    """run a block with the process' local time zone set to tz (POSIX TZ strings need no tzdata: 'XYZ-3', 'EST5')"""
+    import time
+    old = os.environ.get('TZ')
+    os.environ['TZ'] = tz
+    time.tzset()
+    try:
+        yield
+    finally:
+        if old is None:
+            os.environ.pop('TZ', None)
+        else:
+            os.environ['TZ'] = old
+        time.tzset()
